@@ -248,3 +248,29 @@ func VH_P_Search() {
 		vx.Assert(vx.And(n.Id == pat, n.Limit == limit, len(n.States) == 2, n.SortId != nil, *n.SortId == vx.Lookup(read, "promises", last.Id).Int("sort_id"), vx.MapEq(n.Tags, req.Tags)), "C14:cursor-continues-the-same-query")
 	}
 }
+
+// VH_P_CompleteOwnEffect (C02): with retries enabled (not cut), a completion request that itself
+// moved the promise out of pending must answer Created - never "already completed by someone else":
+// no sequential execution has an earlier completer.
+func VH_P_CompleteOwnEffect() {
+	c := vhSetup(vx.HavocMode | vx.Faults(vx.Opt("faults", 1)))
+	state := vx.Int64("state")
+	vx.Assume(vx.Or(state == 2, state == 4, state == 8))
+	req := &t_api.CompletePromiseRequest{Id: vx.String("id"), IdempotencyKey: (*idempotency.Key)(vx.StringPtr("ikey")), Strict: vx.Bool("strict"),
+		State: promise.State(state), Value: promise.Value{Headers: vx.Tags("vhdr", 1), Data: vx.Bytes("vdata")}}
+	res, err := CompletePromise(c, &t_api.Request{Kind: t_api.CompletePromise, Tags: map[string]string{}, CompletePromise: req})
+	if err != nil {
+		vx.Reach("error")
+		return
+	}
+	vx.Reach("answered")
+	own := false
+	for i := 0; i < vx.NYields(); i++ {
+		if vx.YieldKind(i) != "store" || vx.YieldFault(i) == "before" {
+			continue
+		}
+		a, b := vx.Lookup(vx.YieldPre(i), "promises", req.Id), vx.Lookup(vx.YieldPost(i), "promises", req.Id)
+		own = vx.Or(own, vx.And(a.Present(), a.Int("state") == 1, b.Int("state") == state, b.Int("completed_on") == vx.YieldTime(i), vx.YieldTime(i) < a.Int("timeout")))
+	}
+	vx.Assert(vx.Implies(own, res.CompletePromise.Status == t_api.StatusCreated), "C02:own-completion-is-answered-created")
+}
